@@ -1993,12 +1993,10 @@ class unyt_array(np.ndarray):
                     if isinstance(u1, unyt_array) and not u1.units.is_dimensionless:
                         raise UnitOperationError(ufunc, u0, getattr(u1, "units", None))
 
-                    if (
-                        (isinstance(u0, Unit) and not u0.is_dimensionless)
-                        or isinstance(u0, unyt_array)
-                        and not u0.units.is_dimensionless
-                    ):
-                        # u0 has units
+                    unit0 = u0.units if isinstance(u0, unyt_array) else u0
+                    if not (unit0.is_dimensionless and unit0.base_value == 1.0):
+                        # u0 has units, or is a pure number written with a
+                        # scale (percent, km/m)
                         if np.ptp(u1) != 0:
                             raise UnitOperationError(
                                 ufunc, u0, getattr(u1, "units", None)
